@@ -191,7 +191,7 @@ func (m *M) labels32(loc []bitcoin.Hash32) []string {
 	return r
 }
 
-const ruleC19splits = "the verify-only locator of the configuration is exactly the distinct split fork points, newest first, each once; a straight chain of 20..140 headers (optionally with 1..2 side branches) on which two synthetic foreign splits and the required split are installed at drawn heights with their before-hashes ON our chain (as on mainnet; verif hook VerifSetSplits), then the chain is extended one header at a time up to 500 more; at every tip and for max in {1,2,3,4,5,10,20,50}: every locator hash is a best-chain header, a split fork point or the base of a side branch; no hash appears twice; best-chain hashes newest first beginning with the tip's parent; at most max of them besides split fork points and branch bases; non-trivial = tip above both splits (back-off steps cross the split heights); distinct = (split heights, side branches, span)"
+const ruleC19splits = "the verify-only locator of the configuration is exactly the distinct split fork points, newest first, each once; a straight chain of 20..140 (one case in four: 640..700) headers (optionally with 1..4 side branches, so that locators of more than 12 entries occur) on which two synthetic foreign splits and the required split are installed at drawn heights with their before-hashes ON our chain (as on mainnet; verif hook VerifSetSplits), then the chain is extended one header at a time up to 500 more; at every tip and for max in {1,2,3,4,5,10,20,50}: every locator hash is a best-chain header, a split fork point or the base of a side branch; no hash appears twice; best-chain hashes newest first beginning with the tip's parent; at most max of them besides split fork points and branch bases; non-trivial = tip above both splits (back-off steps cross the split heights); distinct = (split heights, side branches, span)"
 
 func TestProp_C19_splits(t *testing.T) {
 	col := evid.For("C19", "splits", ruleC19splits)
@@ -199,6 +199,12 @@ func TestProp_C19_splits(t *testing.T) {
 		k := col.NewCase()
 		ctx := vt.Ctx()
 		base := rapid.IntRange(20, 140).Draw(t, "base")
+		if rapid.IntRange(0, 3).Draw(t, "longBase") == 0 {
+			// long enough for 8 back-off hashes at the split heights: with two fork points and three or
+			// four side-branch bases the locator has more than 12 entries (the repository's sort by
+			// height is only stable up to 12)
+			base = rapid.IntRange(640, 700).Draw(t, "base")
+		}
 		more := rapid.IntRange(10, 500).Draw(t, "more")
 		s1 := rapid.IntRange(2, base-2).Draw(t, "split1")
 		s2 := rapid.IntRange(s1+1, base).Draw(t, "split2")
@@ -237,7 +243,7 @@ func TestProp_C19_splits(t *testing.T) {
 			height[r.Hash()] = i
 		}
 		sideBase := map[model.Hash]bool{}
-		nSide := rapid.IntRange(0, 2).Draw(t, "sides")
+		nSide := rapid.IntRange(0, 4).Draw(t, "sides")
 		var sideAt []int
 		for i := 1; i <= base+more; i++ {
 			if err := repo.ProcessHeader(ctx, toWire(&raws[i])); err != nil {
